@@ -62,22 +62,33 @@ Fixpoint upd {A} (l : list A) (n : nat) (x : A) : list A :=
 (* the target of an object-level declaration: an instance or a class object *)
 Inductive target := TInst (o : obj) | TCls (c : cls).
 
+(* An argument of a declaration call: an interface, or a declaration OBJECT that _normalizeargs
+   expands into the interfaces it names at the moment of the call: the Declaration returned by
+   directlyProvidedBy(t), or the Provides / ClassProvides specification providedBy(t) returns for a
+   t that has its own ``__provides__``.  (Nested tuples / lists of arguments are flattened by
+   _normalizeargs in order; the driver nests the arguments at random, the model sees the flat
+   sequence.  Implements objects as arguments stay live nodes of the specification graph and
+   are not modelled.) *)
+Inductive arg := AI (i : iface) | ADirectlyProvidedBy (t : target) | AProvidedBy (t : target).
+
 (* One step of a history.  [NewClass bases meta] creates class number (#classes so far) — a class's
    bases never change afterwards; [meta = None]: the metaclass is ``type``; [meta = Some l]: the
    class is created with a custom metaclass (fixed during the history, possibly derived from other
-   metaclasses) whose specification implementedBy(metaclass) names the interfaces l directly; [NewInstance c] creates instance number (#instances so far).
+   metaclasses) whose specification implementedBy(metaclass) names the interfaces l directly;
+   [builtin = true]: the class is a built-in (immutable) type such as ``int``: its specification lives in
+   BuiltinImplementationSpecifications, neither it nor its instances can take ``__provides__``; [NewInstance c] creates instance number (#instances so far).
    The nine declaration calls; decorators are applied as calls ([Implementer c l] is
    implementer applied to l and then to class c, [Provider t l] likewise). *)
 Inductive op :=
-| NewClass (bases : list cls) (meta : option (list iface))
+| NewClass (bases : list cls) (meta : option (list iface)) (builtin : bool)
 | NewInstance (c : cls)
 | DropInstance (o : obj)
-| Implementer (c : cls) (l : list iface)
-| ImplementerOnly (c : cls) (l : list iface)
-| ClassImplements (c : cls) (l : list iface)
-| ClassImplementsOnly (c : cls) (l : list iface)
+| Implementer (c : cls) (l : list arg)
+| ImplementerOnly (c : cls) (l : list arg)
+| ClassImplements (c : cls) (l : list arg)
+| ClassImplementsOnly (c : cls) (l : list arg)
 | ClassImplementsFirst (c : cls) (x : iface)
-| DirectlyProvides (t : target) (l : list iface)
-| AlsoProvides (t : target) (l : list iface)
+| DirectlyProvides (t : target) (l : list arg)
+| AlsoProvides (t : target) (l : list arg)
 | NoLongerProvides (t : target) (x : iface)
-| Provider (t : target) (l : list iface).
+| Provider (t : target) (l : list arg).
